@@ -9,7 +9,7 @@ Separate file because `Props/C09.lean` imports `Props/C08.lean`.
 -/
 import Nitime.Props.C09
 import Nitime.Lemmas.C08Hist
-import Nitime.Lemmas.C08Retarget
+import Nitime.Model.C08Retarget
 
 open Finset ComplexConjugate
 open Nitime.Coh Nitime.C08.Props Nitime.C09.Props
